@@ -291,6 +291,9 @@ func (e *Engine) RunFunc(fn *types.Func, fc *FuncContract) (ru *Unit) {
 			panic(r)
 		}
 	}()
+	if n := e.staleCallee(fc.Spec); n != "" {
+		panic(engineError(fmt.Sprintf("%s:%d: unknown name %q: the contract mentions a callee that is no function in the repository any more", shortFile(fc.File), fc.Line, n)))
+	}
 	sig := fn.Type().(*types.Signature)
 	fr := u.newFrame(fn, sig, fi.decl.Body, fi.pkg.TypesInfo, fi.pkg.Types, fc.Spec, fi.decl.Type)
 	u.frames = []*frame{fr}
